@@ -36,6 +36,7 @@ func checkC42(c *Ctx, r *Report) {
 	r.rule("C42.R1", "per mutate function: no clock / random / uuid / API-server / file / network input is reachable", 13)
 	r.rule("C42.R2", "per mutate function, and for the operator package as a whole: map iteration order does not leak into rendered lists", 14)
 	r.rule("C42.R3", "per mutate function: the object's own lists and counters are overwritten, never extended", 13)
+	r.rule("C42.R5", "per mutate function: nothing reachable stores into a package variable or into memory read out of one", 13)
 	r.rule("C42.R4", "per mutate function: no decision or value is taken from the object's previous state", 13)
 
 	type mut struct {
@@ -187,6 +188,47 @@ func checkC42(c *Ctx, r *Report) {
 			r.ok("C42.R2", key, m.Pos(mu.pos), fmt.Sprintf("%d map ranges inspected", nRanges))
 		} else {
 			r.viol("C42.R2", key, m.Pos(mu.pos), strings.Join(leaks, "; "))
+		}
+
+		// ---- R5: rendering keeps nothing between passes: no store into a package variable, or into
+		// memory read out of one (a shared "template" slice written through is state that the next pass,
+		// and the next object, inherit)
+		{
+			var hits []string
+			nSt := 0
+			for f := range ri {
+				for _, b := range f.Blocks {
+					for _, in := range b.Instrs {
+						st, ok := in.(*ssa.Store)
+						if !ok {
+							continue
+						}
+						if _, isLocal := st.Addr.(*ssa.Alloc); isLocal {
+							continue
+						}
+						nSt++
+						var g *ssa.Global
+						if gg, ok := st.Addr.(*ssa.Global); ok {
+							g = gg
+						}
+						for _, root := range addrRoots(st.Addr) {
+							if gg, ok := root.(*ssa.Global); ok {
+								g = gg
+							}
+						}
+						if g != nil && g.Pkg != nil && m.isLocalPkg(g.Pkg.Pkg) {
+							hits = append(hits, fmt.Sprintf("%s in %s writes memory of package variable %s", m.Pos(st.Pos()), f.Name(), g.Name()))
+						}
+					}
+				}
+			}
+			sort.Strings(hits)
+			key = "mutate of " + mu.name + ": writes no package-level state"
+			if len(hits) == 0 {
+				r.ok("C42.R5", key, m.Pos(mu.pos), fmt.Sprintf("%d stores inspected", nSt))
+			} else {
+				r.viol("C42.R5", key, m.Pos(mu.pos), strings.Join(hits, "; ")+": the value survives into the next reconcile, so the second pass renders something else than the first")
+			}
 		}
 
 		// ---- R3
@@ -468,4 +510,54 @@ func addrCovers(st, ld ssa.Value) bool {
 		}
 	}
 	return false
+}
+
+
+// addrRoots: where the memory an address expression denotes comes from — the address chain is
+// followed through field / element selection, slicing, conversions, φ and pointer loads down to a
+// local, a parameter, a call result or a package variable (what is *stored* in the memory is not
+// followed).
+func addrRoots(v ssa.Value) []ssa.Value {
+	seen := map[ssa.Value]bool{}
+	var out []ssa.Value
+	var walk func(v ssa.Value, depth int)
+	walk = func(v ssa.Value, depth int) {
+		if v == nil || seen[v] || depth > 12 {
+			return
+		}
+		seen[v] = true
+		switch x := v.(type) {
+		case *ssa.FieldAddr:
+			walk(x.X, depth+1)
+		case *ssa.IndexAddr:
+			walk(x.X, depth+1)
+		case *ssa.Slice:
+			walk(x.X, depth+1)
+		case *ssa.Convert:
+			walk(x.X, depth+1)
+		case *ssa.ChangeType:
+			walk(x.X, depth+1)
+		case *ssa.Phi:
+			for _, e := range x.Edges {
+				walk(e, depth+1)
+			}
+		case *ssa.UnOp:
+			if x.Op == token.MUL {
+				if a, ok := x.X.(*ssa.Alloc); ok {
+					// a pointer / slice kept in a local: where it was assigned from
+					for _, sv := range storesTo(a) {
+						walk(sv, depth+1)
+					}
+					return
+				}
+				walk(x.X, depth+1)
+				return
+			}
+			out = append(out, v)
+		default:
+			out = append(out, v)
+		}
+	}
+	walk(v, 0)
+	return out
 }
